@@ -10,6 +10,8 @@ import Stef.Driver.Codec
 import Stef.Driver.Limiter
 import Stef.Driver.Handshake
 import Stef.Driver.Cmp
+import Stef.Driver.Receiver
+import Stef.Driver.Pipeline
 
 open Stef.Driver
 
@@ -21,7 +23,11 @@ def mkHandlers : IO (List (List String × Handler)) := do
   let limiter ← mkHandler ({} : LimiterD.St) LimiterD.step
   let hs ← mkHandler () HandshakeD.step
   let cmp ← mkHandler ({} : Cmp.St) Cmp.step
+  let recv ← mkHandler ({} : Receiver.St) Receiver.step
+  let pipe ← mkHandler ({} : Pipeline.St) Pipeline.step
   pure [
+    (["rv", "ls"], recv),
+    (["pl"], pipe),
     (["prim", "cmp", "eq", "clone", "copy"], cmp),
     (["hs"], hs),
     (["sl"], limiter),
